@@ -1401,6 +1401,28 @@ def build_config(c):
     if k == "Fraunhofer":
         dx = tuple(c["dx"]) if isinstance(c["dx"], list) else c["dx"]
         return optics.FraunhoferPropagator(tuple(c["shape"]), dx=dx, k0=c["k0"], z=c["z"], jit=jit)
+    if k == "PG":
+        import scico.numpy as snp
+        shp = tuple(c["shape"])
+        axes = None if c["axes"] is None else tuple(c["axes"])
+        nax = len(shp) if axes is None else len(axes)
+        coord = None
+        if c["coord"]:
+            coord = tuple(snp.ones((nax,) + shp, dtype=np.dtype(c["dtype"]).type) * (j + 1) for j in range(c["coord"]))
+        return linop.ProjectedGradient(shp, axes=axes, coord=coord, cdiff=c["cdiff"], input_dtype=np.dtype(c["dtype"]).type, jit=jit)
+    if k in ("Polar", "Cyl", "Sph"):
+        cls = {"Polar": linop.PolarGradient, "Cyl": linop.CylindricalGradient, "Sph": linop.SphericalGradient}[k]
+        axes = None if c["axes"] is None else tuple(c["axes"])
+        return cls(tuple(c["shape"]), axes=axes, cdiff=c["cdiff"], input_dtype=np.dtype(c["dtype"]).type, jit=jit,
+                   **{f: v for f, v in c["flags"].items()})
+    if k == "CC":
+        import scico.numpy as snp
+        h = snp.ones(tuple(c["hshape"]), dtype=np.dtype(c["hdtype"]).type)
+        if np.dtype(c["hdtype"]).kind == "c":
+            h = h * (1 + 0.5j)
+        if c["h_is_dft"]:
+            h = snp.fft.fftn(h)
+        return linop.CircularConvolve(h, tuple(c["shape"]), input_dtype=np.dtype(c["dtype"]).type, h_is_dft=c["h_is_dft"], jit=jit)
     raise ValueError(k)
 
 
@@ -1442,6 +1464,21 @@ def config_spec(c):
             for i, n in zip(ax, ash):
                 out[i] = n
         return [shp, out]
+    if k == "PG":
+        axes = list(range(len(shp))) if c["axes"] is None else list(c["axes"])
+        if any(a >= len(shp) for a in axes):
+            return None
+        n = c["coord"] if c["coord"] else len(axes)
+        return [shp, shp if n == 1 else [shp] * n]
+    if k in ("Polar", "Cyl", "Sph"):
+        n = sum(1 for v in c["flags"].values() if v)
+        return [shp, shp if n == 1 else [shp] * n]
+    if k == "CC":
+        nd = len(shp)                      # ndims default: all axes of the input
+        hs = list(c["hshape"])
+        hdft = hs if c["h_is_dft"] else hs[:len(hs) - nd] + shp[-nd:]     # the filter is zero-padded to the input size
+        out = [int(d) for d in np.broadcast_shapes(tuple(shp), tuple(hdft))]
+        return [shp, out]
     return [shp, shp]       # propagators map the source plane to a plane of the same sampling
 
 
@@ -1470,7 +1507,26 @@ def observe_config(c):
     for nm in ("inv", "pinv"):
         if hasattr(A, nm):
             ob[nm] = res(getattr(A, nm), ob["osh"], ob["odt"])
-    if c.get("derived"):
+    if c["kind"] == "CC":
+        cc = dict(c)                         # the same filter given the other way (spatial <-> DFT), same operator shape
+        cc["h_is_dft"] = not c["h_is_dft"]
+        nd_ = len(c["shape"])
+        cc["hshape"] = (list(c["hshape"])[:len(c["hshape"]) - nd_] + list(c["shape"])) if cc["h_is_dft"] else \
+            (list(c["hshape"])[:len(c["hshape"]) - nd_] + [2] * nd_)
+        forms = [("conj", lambda: A.conj()), ("H", lambda: A.H), ("gram_op", lambda: A.gram_op), ("2*", lambda: 2.0 * A),
+                 ("A+B", lambda: A + build_config(cc))]
+        ob["forms"] = {}
+        for nm, f in forms:
+            try:
+                B = f()
+                d = {"cls": type(B).__name__, "ish": canon_shape(B.input_shape), "osh": canon_shape(B.output_shape),
+                     "idt": dtn(B.input_dtype), "odt": dtn(B.output_dtype), "lin": True}
+                d["call"] = res(B, d["ish"], d["idt"])
+                d["adj"] = res(B.adj, d["osh"], d["odt"])
+                ob["forms"][nm] = d
+            except Exception as e:
+                ob["forms"][nm] = "raise:" + type(e).__name__
+    elif c.get("derived"):
         for nm, f in (("H", lambda: A.H), ("gram_op", lambda: A.gram_op)):
             try:
                 B = f()
@@ -1499,6 +1555,22 @@ def config_failures(c, ob):
         if nm in ob and ob[nm] != [ob["ish"], ob["odt"]] and not (isinstance(ob[nm], list) and ob[nm][0] == ob["ish"]):
             out.append((f"{nm} of an array of the declared output shape does not return the declared input shape",
                         ob["ish"], ob[nm], "inverse maps the output space to the input space"))
+    base_clean = not out
+    for nm, d in ob.get("forms", {}).items():
+        base = [ob["ish"], ob["osh"], ob["idt"], ob["odt"]]
+        want_m = {"conj": base, "2*": base, "A+B": base, "H": [ob["osh"], ob["ish"], ob["odt"], ob["idt"]],
+                  "gram_op": [ob["ish"], ob["ish"], ob["idt"], ob["idt"]]}[nm]
+        if isinstance(d, str):
+            out.append((f"derived form {nm}: construction raises", want_m, d, "operator calculus"))
+            continue
+        got_m = [d["ish"], d["osh"], d["idt"], d["odt"]]
+        if got_m != want_m:
+            out.append((f"derived form {nm}: declared metadata differ from the operator calculus", want_m, got_m, "spec e (ExprSpec.v)"))
+        if base_clean:   # a failure of the operator itself is reported once, above
+            fake = dict(d, isize=0, osize=0, mshape=[0, 0], shape_attr_ok=True)
+            for w, exp, got, orc in _O1_list(fake):
+                if not w.startswith("input_size"):
+                    out.append((f"derived form {nm}: {w}", exp, got, orc))
     if "H" in ob:
         if isinstance(ob["H"], str) or ob["H"][:2] != [ob["osh"], ob["ish"]] or isinstance(ob["H"][2], str) or ob["H"][2][0] != ob["ish"]:
             out.append(("H of the operator does not map the declared output shape to the declared input shape",
@@ -1562,6 +1634,43 @@ def config_lattice(ctx):
     must += [c for c in prop if c["kind"] == "ASP" and c["shape"] == [6, 8] and c["dx"] == [1.0, 0.5]]
     must += [c for c in prop if c["kind"] == "Fresnel" and c["shape"] == [8] and c["dx"] == 1.0 and c["pad_factor"] == 2]
     more += [c for c in prop if c not in must]
+    # projected gradients: axes None / single / subsets x cdiff x coord, 1-d .. 3-d inputs
+    pg = []
+    for shp, axs in (([6], [None, [0]]), ([4, 5], [None, [0], [1], [1, 0]]), ([2, 4, 5], [None, [2], [0, 2], [1]])):
+        for ax in axs:
+            for cd in (False, True):
+                for co in (0, 1, 2):
+                    pg.append({"kind": "PG", "shape": shp, "dtype": "float32", "axes": ax, "cdiff": cd, "coord": co})
+    pg.append({"kind": "PG", "shape": [4, 5], "dtype": "float32", "axes": [2], "cdiff": False, "coord": 0})   # excluded
+    pg.append({"kind": "PG", "shape": [4, 5], "dtype": "complex64", "axes": [1], "cdiff": True, "coord": 0})
+    must += [c for c in pg if c["shape"] == [4, 5] and c["axes"] in ([1], [0]) and c["coord"] == 0 and c["dtype"] == "float32"]
+    must += [c for c in pg if c["shape"] == [2, 4, 5] and c["axes"] == [2] and c["cdiff"] and c["coord"] == 1]
+    more += [c for c in pg if c not in must]
+    for cd in (False, True):
+        for ax in (None, [1, 0]):
+            for fl in ({"angular": True, "radial": True}, {"angular": True, "radial": False}, {"angular": False, "radial": True}):
+                more.append({"kind": "Polar", "shape": [4, 5], "dtype": "float32", "axes": ax, "cdiff": cd, "flags": fl})
+        more.append({"kind": "Polar", "shape": [2, 4, 5], "dtype": "float32", "axes": [1, 2], "cdiff": cd, "flags": {"angular": True, "radial": True}})
+        for ax in (None, [2, 0, 1]):
+            more.append({"kind": "Cyl", "shape": [3, 4, 5], "dtype": "float32", "axes": ax, "cdiff": cd,
+                         "flags": {"angular": True, "radial": True, "axial": True}})
+            more.append({"kind": "Sph", "shape": [3, 4, 5], "dtype": "float32", "axes": ax, "cdiff": cd,
+                         "flags": {"azimuthal": True, "polar": True, "radial": True}})
+        more.append({"kind": "Cyl", "shape": [3, 4, 5], "dtype": "float32", "axes": None, "cdiff": cd,
+                     "flags": {"angular": False, "radial": False, "axial": True}})
+        more.append({"kind": "Sph", "shape": [3, 4, 5], "dtype": "float32", "axes": None, "cdiff": cd,
+                     "flags": {"azimuthal": False, "polar": True, "radial": False}})
+    # CircularConvolve: filter and input over different fields, h_is_dft both ways
+    ccs = []
+    for hd in ("float32", "complex64"):
+        for dt in ("float32", "complex64", "float64"):
+            for dft in (False, True):
+                ccs.append({"kind": "CC", "shape": [3, 4], "hshape": [2, 2] if not dft else [3, 4], "hdtype": hd, "dtype": dt, "h_is_dft": dft})
+    ccs.append({"kind": "CC", "shape": [2, 3, 4], "hshape": [1, 2, 2], "hdtype": "complex64", "dtype": "float32", "h_is_dft": False})
+    ccs.append({"kind": "CC", "shape": [3, 4], "hshape": [5, 1, 2], "hdtype": "float32", "dtype": "complex64", "h_is_dft": False})
+    must += [c for c in ccs if c["shape"] == [3, 4] and c["dtype"] in ("float32", "complex64") and len(c["hshape"]) == 2
+             and (c["hdtype"] == "complex64") != (c["dtype"] == "complex64")]
+    more += [c for c in ccs if c not in must]
     if ctx.quick:
         more = rng.sample([c for c in more if not c.get("jit")], 20)   # the default-jit configurations: thorough tier
     cfgs = must + more
